@@ -56,6 +56,8 @@ def expected_entry(node, typed):
         e["name"] = d.name
         if d.age is not None:
             e["age"] = d.age
+    elif isinstance(d, sergen.PlainObj):
+        e = {"type": d.typ, "name": d.name}
     elif isinstance(d, DictWrapper):
         e = dict(d._dict)
     elif type(d).__name__ == "FileSystemEntry":
@@ -369,7 +371,22 @@ def run_reader(case, res):
             entries = len(doc["nodes"])
             res.case(case, nontrivial=entries >= 4 and any(isinstance(e[1], int) for e in doc["nodes"]) or entries >= 6)
             try:
-                t = cls.load(io.StringIO(text), file_meta=fmeta, **kw)
+                if variant.get("via_path"):
+                    import os
+                    import shutil
+                    import tempfile
+
+                    tmpd = tempfile.mkdtemp(prefix="vmon-c12-")
+                    try:
+                        pth = os.path.join(tmpd, "doc.nutree")
+                        with open(pth, "w", encoding="utf8") as fpw:
+                            fpw.write(text)
+                        t = cls.load(pth, file_meta=fmeta, **kw)
+                    finally:
+                        shutil.rmtree(tmpd, ignore_errors=True)
+                    res.count("reader_docs_via_path")
+                else:
+                    t = cls.load(io.StringIO(text), file_meta=fmeta, **kw)
             except Exception:
                 bad.append("load of a layout-conformant document raised: " + short_tb(5))
                 t = None
@@ -566,7 +583,7 @@ def run_shard(spec, res):
             typed = rng.random() < 0.5
             variant = {"key_map": rng.choice([False, True, "partial"]), "value_map": rng.random() < 0.5, "refs": rng.random() < 0.7,
                        "plain_str": rng.random() < 0.5, "omit_default_kind": rng.random() < 0.3, "generator": rng.choice(GENERATORS),
-                       "user_meta": rng.random() < 0.5, "user_short_keys": rng.random() < 0.4}
+                       "user_meta": rng.random() < 0.5, "user_short_keys": rng.random() < 0.4, "via_path": rng.random() < 0.3}
             run_case({"kind": "reader", "seed": rng.randrange(10**9), "typed": typed, "variant": variant}, res)
             if res.expired():
                 break
